@@ -308,6 +308,31 @@ theorem cart2_row_apply (nx ny : Nat) (dx dy : K) (xlo xhi ylo yhi : Nat → BCD
   push_cast at h1 h2 ⊢
   linear_combination h1 + h2
 
+/-- 3-d Cartesian: the row of cell `(x, y, z)` (flat index `(x*ny + y)*nz + z`) is the 7-point stencil
+with virtual points on all six faces -/
+theorem cart3_row_apply (nx ny nz : Nat) (dx dy dz : K) (xlo xhi ylo yhi zlo zhi : Nat → Nat → BCData K)
+    (cx cy cz : Nat) (u : Nat → K) :
+    progSum (cart3Row nx ny nz dx dy dz xlo xhi ylo yhi zlo zhi cx cy cz).2 u
+        + (cart3Row nx ny nz dx dy dz xlo xhi ylo yhi zlo zhi cx cy cz).1 =
+      (nbLo cx (xlo cy cz) (fun k => u ((k * ny + cy) * nz + cz)) - 2 * u ((cx * ny + cy) * nz + cz)
+          + nbHi nx cx (xhi cy cz) (fun k => u ((k * ny + cy) * nz + cz))) / (dx * dx)
+      + (nbLo cy (ylo cx cz) (fun k => u ((cx * ny + k) * nz + cz)) - 2 * u ((cx * ny + cy) * nz + cz)
+          + nbHi ny cy (yhi cx cz) (fun k => u ((cx * ny + k) * nz + cz))) / (dy * dy)
+      + (nbLo cz (zlo cx cy) (fun k => u ((cx * ny + cy) * nz + k)) - 2 * u ((cx * ny + cy) * nz + cz)
+          + nbHi nz cz (zhi cx cy) (fun k => u ((cx * ny + cy) * nz + k))) / (dz * dz) := by
+  have h1 := axisOps_apply nx cx (1 / (dx * dx)) (1 / (dx * dx)) (xlo cy cz) (xhi cy cz)
+    (fun k => (k * ny + cy) * nz + cz) u
+  have h2 := axisOps_apply ny cy (1 / (dy * dy)) (1 / (dy * dy)) (ylo cx cz) (yhi cx cz)
+    (fun k => (cx * ny + k) * nz + cz) u
+  have h3 := axisOps_apply nz cz (1 / (dz * dz)) (1 / (dz * dz)) (zlo cx cy) (zhi cx cy)
+    (fun k => (cx * ny + cy) * nz + k) u
+  unfold cart3Row
+  have e : ∀ (k : Nat) (v : K) (ops : List (Op K)), progSum (Op.set k v :: ops) u = v * u k + progSum ops u := by
+    intro k v ops; unfold progSum; simp
+  simp only [e, progSum_append]
+  push_cast at h1 h2 h3 ⊢
+  linear_combination h1 + h2 + h3
+
 /-- cylindrical: radial weights `1/dr² ∓ 1/(2 r dr)`, axial weight `1/dz²` - the row is the
 cylindrical Laplacian of C01 with virtual points on the radial and axial faces -/
 theorem cyl_row_apply (nr nz : Nat) (r : Int → K) (dr dz : K) (rlo rhi zlo zhi : Nat → BCData K)
